@@ -351,10 +351,17 @@ func pkgRespell(b []byte, sp string, salt int) ([]byte, error) {
 		if p.RelsErr["_rels/.rels"] != "" || p.RelsErr[docRels] != "" {
 			return nil, fmt.Errorf("relationship part not readable")
 		}
+		for _, n := range p.SortedNames() {
+			ct := p.ContentType(n)
+			if strings.HasSuffix(ct, ".core-properties+xml") || strings.HasSuffix(ct, ".extended-properties+xml") || strings.HasSuffix(ct, ".wordprocessingml.styles+xml") {
+				drop[n] = true
+			}
+		}
 		keep := func(src string, rels []Rel) []Rel {
 			var out []Rel
 			for _, r := range rels {
-				if r.Mode != "External" && (r.Type == relStyles || strings.HasSuffix(r.Type, "/core-properties") || strings.HasSuffix(r.Type, "/extended-properties")) {
+				if r.Mode != "External" && (drop[ResolveTarget(src, r.Target)] || r.Type == relStyles ||
+					strings.HasSuffix(r.Type, "/core-properties") || strings.HasSuffix(r.Type, "/extended-properties")) {
 					drop[ResolveTarget(src, r.Target)] = true
 					continue
 				}
